@@ -59,6 +59,9 @@ inline std::vector<PVal> paramMenu() {
     m.push_back({"i11", [](Param& p) { p.set(std::vector<int>() = {-5}, {1, 1}); }});                       // one value, two dimensions
     m.push_back({"f111", [](Param& p) { p.set(std::vector<float>() = {6.5f}, {1, 1, 1}); }});
     m.push_back({"sctl", [](Param& p) { p.set(std::vector<std::string>() = {"tab\t", "cr\r\n", "x y", "\f"}); }});   // control white-space is content, only spaces are padding
+    // a parameter that went through a REFUSED reshape before it is handed over (the refused call must have left it as it was)
+    m.push_back({"i2r", [](Param& p) { p.set(std::vector<int>() = {4, 5}); try { p.set(std::vector<int>() = {4, 5}, {30}); } catch (const std::range_error&) { } }});
+    m.push_back({"f2r", [](Param& p) { p.set(std::vector<float>() = {4.5f, 5.5f}); try { p.set(std::vector<float>() = {4.5f, 5.5f}, {3, 7}); } catch (const std::range_error&) { } try { p.set(std::vector<std::string>() = {"a"}, {5}); } catch (const std::range_error&) { } }});
     m.push_back({"s11", [](Param& p) { p.set(std::vector<std::string>() = {"solo"}, {1, 1}); }});
     return m;
 }
@@ -206,7 +209,8 @@ inline Op opFrame(const std::string& dev, const std::string& tgt, int vs, const 
         if (dev == "addanalogs" && (pFloat(s.o, "ANALOG", "RATE") == 0.0f || pInt(s.o, "ANALOG", "USED") != 0)) return false;
         if (L.documentedDevsOnly && dev.compare(0, 3, "pt_") == 0 && pInt(s.o, "POINT", "USED") <= 0) return false;
         if (L.documentedDevsOnly && dev.compare(0, 3, "ch_") == 0 && pInt(s.o, "ANALOG", "USED") <= 0) return false;
-        if (L.documentedDevsOnly && dev.compare(0, 4, "sub_") == 0 && !(s.o.frames.size() == 1 && tgt == "0")) return false;   // a different sub-frame count only as the replacement of the single stored frame: the data set stays uniform
+        if (L.documentedDevsOnly && dev.compare(0, 4, "sub_") == 0 && !(s.o.frames.size() == 1 && tgt == "0")) return false;
+        if (L.documentedDevsOnly && dev == "sub_missing" && sh.nsub < 2) return false;   // (a frame left without any sub-frame is the undocumented deviation an_none, not a different sub-frame count)   // a different sub-frame count only as the replacement of the single stored frame: the data set stays uniform
         return applyDev(sh, dev);
     };
     o.apply = [dev, tgt, vs](World& w, const WSnap& s, CallInfo& ci) {
